@@ -456,7 +456,7 @@ class CostFunction_Chi2(CostFunction):
 
     @property
     def pointwise(self):
-        return self._cost_function_handle != self.chi2_covariance
+        return self._cost_function_handle not in (self.chi2_covariance, self.chi2_covariance_fast)
 
     @property
     def pointwise_version(self):
@@ -651,7 +651,8 @@ class CostFunction_GaussApproximation(CostFunction):
         _cost_function_description = "Gaussian approximation of Poisson NLL"
         if errors_to_use.lower() == "covariance":
             _cost_function = self.gaussian_approximation_covariance
-            _arg_names = [self._DATA_NAME, self._MODEL_NAME, self._COV_MAT_CHOLESKY_NAME if fast_math else self._COV_MAT_QR_NAME]
+            # the cost function needs the covariance matrix itself because it adds the model values to its diagonal
+            _arg_names = [self._DATA_NAME, self._MODEL_NAME, self._COV_MAT_CHOLESKY_NAME[: -len("_cholesky")]]
             _cost_function_description += " (with covariance matrix)"
         elif errors_to_use.lower() == "pointwise":
             _cost_function = self.gaussian_approximation_pointwise_errors
@@ -772,7 +773,7 @@ class CostFunction_GaussApproximation(CostFunction):
             return type(self)(
                 errors_to_use="pointwise",
                 add_constraint_cost=self._add_constraint_cost,
-                add_determinant_cost=self._add_determinant_cost,
+                add_determinant_cost=self._add_determinant_cost_ga,
             )
         else:
             return None
